@@ -298,9 +298,19 @@ def rule_c13_choice(prog: Program, col: Collector) -> None:
     G = _gym_param(ref)
     ft = fterms(prog, ref)
     rets = list(ft.of_kind("return"))
-    if len(rets) != 1:
-        raise AnalysisError(f"{ref.short}: expected a single return")
-    v = rets[0].value
+    if not rets:
+        raise AnalysisError(f"{ref.short}: no return")
+    main = [r for r in rets if is_call_to(r.value, "next")]
+    for r in rets:
+        if r in main[-1:]:
+            continue
+        col.check(False, ref.where(r.node), ref.short,
+                  f"every action returned by the greedy solver is chosen by the extremum rule (extra return of {short(r.value, 50)})", construct="greedy-extra-return",
+                  necessity="an early return of some other action (first finishing action, first valid action, ...) is not 'maximal immediate reward, ties to the lowest index'")
+    if not main:
+        col.undecidable(ref.where(), ref.short, "greedy choice not of the form next(act for act, val in zip(...) if val == extremum)")
+        return
+    v = main[-1].value
     # expected family: next(<gen act for (act, val) in zip(VALID, VALUES) if val == EXT>)
     if not (is_call_to(v, "next") and v[2] and v[2][0][0] == "comp" and len(v[2][0][3]) == 1):
         col.undecidable(ref.where(), ref.short, f"greedy choice not of the form next(act for act, val in zip(...) if val == extremum): {short(v, 80)}")
